@@ -466,3 +466,14 @@ package base
 //@   loop 0 invariant[C08] rangeindex + 1 <= len(argT.variants)
 //@   loop 0 invariant[C08] forall(i, 0 <= i && i <= rangeindex ==> argT.variants[i].tType == UNTYPED || exists(j, 0 <= j && j < len(t.variants) && t.variants[j].tType == argT.variants[i].tType))
 //@   ensures[C08] result == (t != nil && argT != nil && t.tType == UNION && argT.tType == UNION && variantTypesWithin(argT, t))
+
+//@ func (*ti/base.T).IsMatchType
+//@   inline 6 1
+//@   # outside the union/union and object/object cases two types match exactly when their tags are equal
+//@   ensures[C07,C08] t != nil && targetT != nil && !(t.tType == UNION && targetT.tType == UNION) && !(t.tType == OBJECT && targetT.tType == OBJECT) ==> result == (t.tType == targetT.tType)
+
+//@ func (*ti/base.T).IsMatchUnionType
+//@   requires t != nil && targetT != nil
+//@   inline 6 1
+//@   # against a definite type a union matches only through a variant that is untyped or has that type tag
+//@   ensures[C07] t != nil && targetT != nil && targetT.tType != UNION && result ==> exists(i, 0 <= i && i < len(t.variants) && (t.variants[i].tType == UNTYPED || t.variants[i].tType == targetT.tType))
